@@ -25,10 +25,11 @@ def BlockOpt.start (b : BlockOpt) : Nat := b.num * b.size
 
 /-- `is_valid_for_payload_size` (optiontypes.py:194-203). Not BERT: a block with the more flag
 carries exactly `size` bytes, the last one at most `size`. BERT (`is_bert`: exponent 7): a block
-with the more flag carries a whole number of KiB (0 included), the last one anything. -/
+with the more flag carries a whole, non-zero number of KiB (fix f14c0e7: "not none"), the last one
+anything. -/
 def BlockOpt.validFor (b : BlockOpt) (payloadSize : Nat) : Bool :=
   if b.szx = 7 then
-    if b.more then payloadSize % 1024 == 0 else true
+    if b.more then decide (0 < payloadSize) && payloadSize % 1024 == 0 else true
   else if b.more then payloadSize == b.size else decide (payloadSize ≤ b.size)
 
 /-- what the CLIENT's assembly of a block-wise response accepts (message.py:491-498
